@@ -46,6 +46,7 @@ func runC12(p *Program, e *Engine, r *Result, tier string) {
 			c09Cleanup(a, tf, hctx, entry, *watchLit, watchLit.A.Subj, maskSubj, collectTableOps(a, tf, w), "C12.5")
 		}
 	}
+	c04Replace(a, tf, ro.API["AddWith"], "C12.6")
 	for _, root := range roots {
 		c12Release(a, tf, root)
 		pairTables(a, tf, root, "C12.3")
